@@ -24,6 +24,7 @@ func checkC13(p *core.Prog, r *core.Report) {
 	c13R3(p, r)
 	c13R4(p, r)
 	c13R5(p, r)
+	c13R6(p, r)
 }
 
 // c13NoRecover asserts the premise that makes every panic fatal.
@@ -709,4 +710,94 @@ func c13R5(p *core.Prog, r *core.Report) {
 func isConstText(s string) bool {
 	_, err := strconv.Atoi(s)
 	return err == nil
+}
+
+// c13R6: upper bounds in the text parser. The parser walks its read buffer
+// with the cursor bufIndex up to bufLen (the number of bytes the last read
+// delivered; bufLen <= len(rbuf) is the contract of BufferUpdate /
+// CopyToReadBuf). Every element access rbuf[e] needs e <= bufLen-1 and every
+// re-slice rbuf[a:b] needs b <= bufLen on its path, proved from the path's
+// comparisons by linear combination (cursor and length are both symbolic, so
+// interval facts against constants do not suffice). A look-ahead such as
+// rbuf[bufIndex+1] behind the test bufIndex+1 <= bufLen reads one past the
+// data - past the buffer when a read filled it completely.
+func c13R6(p *core.Prog, r *core.Report) {
+	const rule = "C13/R6"
+	r.Rule(rule, "text parser: every rbuf[e] has e < bufLen and every rbuf[a:b] has b <= bufLen on its path (linear entailment from the path's comparisons)", 10)
+	for _, fn := range p.FuncsIn("protocol") {
+		if fn.Blocks == nil || recvName(fn) != "TextParser" || (fn.Name() != "ParseRequest" && fn.Name() != "ParseResponse") {
+			continue
+		}
+		name := core.FuncName(fn)
+		self := fn.Params[0].Name()
+		bufLen := core.LinTerm(self + ".bufLen")
+		isRbuf := func(x *core.X, v ssa.Value) bool { return core.Plain(x.Canon(v).S) == self+".rbuf" }
+		facts := func(x *core.X) []core.Lin {
+			var fs []core.Lin
+			for _, a := range x.St.Facts.All() {
+				if strings.Contains(a.L, core.SnapMark) || strings.Contains(a.R, core.SnapMark) {
+					continue
+				}
+				fs = append(fs, core.AtomLin(a)...)
+			}
+			return fs
+		}
+		ord := map[string]int{}
+		ex := core.NewExplorer(p, core.Hooks{
+			Track: func(x *core.X, a core.Atom) bool {
+				s := a.String()
+				return strings.Contains(s, ".bufIndex") || strings.Contains(s, ".bufLen")
+			},
+			Instr: func(x *core.X) {
+				if !x.Top() {
+					return
+				}
+				var idx ssa.Value
+				kind := ""
+				switch t := x.Ins.(type) {
+				case *ssa.IndexAddr:
+					if isRbuf(x, t.X) {
+						idx, kind = t.Index, "index"
+					}
+				case *ssa.Slice:
+					if isRbuf(x, t.X) && t.High != nil {
+						idx, kind = t.High, "slice"
+					}
+				}
+				if kind == "" {
+					return
+				}
+				e := x.Canon(idx).S
+				if strings.Contains(e, core.SnapMark) || strings.Contains(e, "phi") {
+					// register snapshots and loop-carried locals are outside the decided
+					// domain (the rule decides expressions over the cursor fields)
+					r.Stats["R6_outside_domain"]++
+					return
+				}
+				pos := x.Pos()
+				if _, ok := ord[pos+kind+e]; !ok {
+					ord[pos+kind+e] = len(ord) + 1
+				}
+				key := fmt.Sprintf("%s: rbuf %s %s", name, kind, stable(e))
+				target := bufLen.Sub(core.ParseLin(e))
+				if kind == "index" {
+					target = target.Add(core.LinConst(-1))
+				}
+				if core.LinEntails(facts(x), target) {
+					r.Hold(rule, key, pos, "within the delivered bytes")
+				} else {
+					what := "rbuf[" + stable(e) + "]"
+					if kind == "slice" {
+						what = "rbuf[:" + stable(e) + "]"
+					}
+					r.Violate(rule, key, pos, what+" is not shown to stay within bufLen on this path: when a read fills the buffer completely the access runs past it (index out of range in the connection goroutine), otherwise it reads bytes of an earlier read", x.St.Trace)
+				}
+			},
+		})
+		ex.NoHist = true
+		ex.Run(fn, nil)
+		if ex.Imprecise != "" {
+			r.Fail("C13/R6 %s: %s", name, ex.Imprecise)
+		}
+	}
 }
